@@ -391,6 +391,78 @@ fn cte_shadow_case(i: u64, p: &Params, rep: &mut Report) {
     }
 }
 
+/// A column reached through the qualifier of the table that does not have it; two tables of the same
+/// name in two schemas joined without aliases
+fn qualifier_case(i: u64, p: &Params, rep: &mut Report) {
+    use qrlew::data_type::Variant as _;
+    let mut r = p.rng(i ^ 0x0A11_0000_0000);
+    let schema = |cols: &[(&str, DataType)]| -> qrlew::relation::Schema { cols.iter().map(|(c, t)| qrlew::relation::Field::new(c.to_string(), t.clone(), None)).collect() };
+    let low = DataType::integer_interval(0, 10);
+    let high = DataType::integer_interval(100, 200);
+    if r.bool() {
+        // t(id, a, b) and u(id, a, c): `u.b` and `t.c` name nothing
+        let t: Relation = Relation::table().name("t").path(["t"]).schema(schema(&[("id", low.clone()), ("a", low.clone()), ("b", high.clone())])).size(10).build();
+        let u: Relation = Relation::table().name("u").path(["u"]).schema(schema(&[("id", low.clone()), ("a", high.clone()), ("c", low.clone())])).size(10).build();
+        let relations: Hierarchy<Arc<Relation>> = Hierarchy::from([(vec!["t"], Arc::new(t)), (vec!["u"], Arc::new(u))]);
+        let (from, wrong) = match r.below(4) {
+            0 => ("t JOIN u ON t.id = u.id", "u.b"),
+            1 => ("t JOIN u ON t.id = u.id", "t.c"),
+            2 => ("t AS x JOIN u AS y ON x.id = y.id", "y.b"),
+            _ => ("t LEFT JOIN u ON t.id = u.id", "t.c"),
+        };
+        let query = match r.below(3) {
+            0 => format!("SELECT {} AS x FROM {}", wrong, from),
+            1 => format!("SELECT t.id FROM {} WHERE {} > 3", from.replace(" AS x", "").replace(" AS y", "").replace("x.", "t.").replace("y.", "u."), wrong.replace("y.", "u.")),
+            _ => format!("SELECT COUNT(*) AS n FROM {} GROUP BY {}", from, wrong),
+        };
+        let res = guarded(|| {
+            let q = qrlew::sql::parse(&query).map_err(|e| e.to_string())?;
+            Relation::try_from(q.with(&relations)).map_err(|e| e.to_string())
+        });
+        rep.eval();
+        rep.count("sql:wrong-qualifier");
+        rep.nontrivial(hash64(&query));
+        if let Ok(Ok(rel)) = &res {
+            rep.violation(
+                "C15|sql|wrong-qualifier-accepted".to_string(),
+                format!("{}: `{}` names no column (the qualified table has none of that name), yet the query is accepted: {}", query, wrong, rel.schema()),
+                json!({"query": query, "tables": {"t": ["id", "a", "b"], "u": ["id", "a", "c"]}}),
+            );
+        }
+    } else {
+        let t1: Relation = Relation::table().name("s1_t").path(["s1", "t"]).schema(schema(&[("id", low.clone()), ("a", low.clone()), ("b", low.clone())])).size(10).build();
+        let t2: Relation = Relation::table().name("s2_t").path(["s2", "t"]).schema(schema(&[("id", low.clone()), ("a", high.clone()), ("c", low.clone())])).size(10).build();
+        let relations: Hierarchy<Arc<Relation>> = Hierarchy::from([(vec!["s1", "t"], Arc::new(t1)), (vec!["s2", "t"], Arc::new(t2))]);
+        let (query, expected): (&str, Option<DataType>) = match r.below(4) {
+            0 => ("SELECT s1.t.a AS x FROM s1.t JOIN s2.t ON s1.t.id = s2.t.id", Some(low.clone())),
+            1 => ("SELECT s2.t.a AS x FROM s1.t JOIN s2.t ON s1.t.id = s2.t.id", Some(high.clone())),
+            2 => ("SELECT a AS x FROM s1.t JOIN s2.t ON s1.t.id = s2.t.id", None),
+            _ => ("SELECT s1.t.b AS x FROM s1.t JOIN s2.t ON s1.t.id = s2.t.id", Some(low.clone())),
+        };
+        let res = guarded(|| {
+            let q = qrlew::sql::parse(query).map_err(|e| e.to_string())?;
+            Relation::try_from(q.with(&relations)).map_err(|e| e.to_string())
+        });
+        rep.eval();
+        rep.count("sql:homonymous-tables");
+        rep.nontrivial(hash64(&query));
+        if let Ok(Ok(rel)) = &res {
+            let got = rel.schema()[0].data_type();
+            let wrong = match &expected {
+                Some(t) => !got.is_subset_of(t),
+                None => true,
+            };
+            if wrong {
+                rep.violation(
+                    "C15|sql|homonymous-tables-of-two-schemas|wrong or arbitrary binding".to_string(),
+                    format!("{}: x has type {} ({})", query, got, expected.map_or("the unqualified name is ambiguous and must be refused".to_string(), |t| format!("the named column has type {}", t))),
+                    json!({"query": query, "tables": {"s1.t": ["id int[0 10]", "a int[0 10]", "b"], "s2.t": ["id int[0 10]", "a int[100 200]", "c"]}}),
+                );
+            }
+        }
+    }
+}
+
 /// The same table twice in a FROM clause without aliases: every reference to it is ambiguous
 fn self_join_case(i: u64, p: &Params, rep: &mut Report) {
     let mut r = p.rng(i ^ 0x5E1F_0000_0000);
@@ -440,7 +512,9 @@ pub fn run(p: &Params) -> Report {
         p.cases,
         &mut rep,
         &|i, rep| {
-            if i % 300 == 59 {
+            if i % 60 == 17 {
+                qualifier_case(i, &pp, rep)
+            } else if i % 300 == 59 {
                 self_join_case(i, &pp, rep)
             } else if i % 30 == 29 {
                 cte_shadow_case(i, &pp, rep)
